@@ -1574,8 +1574,8 @@ func min(x, y value) value {
 		return fmin(x, y.(float64))
 	}
 
-	// return (y < x) ? y : x
-	if binop(token.LSS, nil, y, x).(bool) {
+	// return (y < x) ? y : x   (a symbolic comparison forks the path)
+	if X.branch(binop(token.LSS, nil, y, x), "min") {
 		return y
 	}
 	return x
@@ -1590,7 +1590,7 @@ func max(x, y value) value {
 	}
 
 	// return (y > x) ? y : x
-	if binop(token.GTR, nil, y, x).(bool) {
+	if X.branch(binop(token.GTR, nil, y, x), "max") {
 		return y
 	}
 	return x
